@@ -101,15 +101,39 @@ func findCommodityReferences(symbol string, resolved *include.ResolvedJournal, c
 			}
 		}
 
+		addIfSymbol := func(c ast.Commodity) {
+			if c.Symbol == symbol && c.Range.End.Line != 0 {
+				locations = append(locations, protocol.Location{
+					URI:   pathToURI(filePath),
+					Range: *astRangeToProtocol(c.Range),
+				})
+			}
+		}
+
+		// every place the commodity is written: posting amounts, costs and
+		// balance assertions, market prices and the default commodity
+		for _, dir := range journal.Directives {
+			switch d := dir.(type) {
+			case ast.PriceDirective:
+				addIfSymbol(d.Commodity)
+				addIfSymbol(d.Price.Commodity)
+			case ast.DefaultCommodityDirective:
+				addIfSymbol(ast.Commodity{Symbol: d.Symbol, Range: d.SymbolRange})
+			}
+		}
+
 		for i := range journal.Transactions {
 			tx := &journal.Transactions[i]
 			for j := range tx.Postings {
 				p := &tx.Postings[j]
-				if p.Amount != nil && p.Amount.Commodity.Symbol == symbol {
-					locations = append(locations, protocol.Location{
-						URI:   pathToURI(filePath),
-						Range: *astRangeToProtocol(p.Amount.Commodity.Range),
-					})
+				if p.Amount != nil {
+					addIfSymbol(p.Amount.Commodity)
+				}
+				if p.Cost != nil {
+					addIfSymbol(p.Cost.Amount.Commodity)
+				}
+				if p.BalanceAssertion != nil {
+					addIfSymbol(p.BalanceAssertion.Amount.Commodity)
 				}
 			}
 		}
